@@ -2052,6 +2052,16 @@ class Executor:
                 if rid not in body_assigned:
                     lows[rid] = v.t
 
+        # counters that only go down (c-- / c -= k): c <= its start value
+        highs = {}
+        for rid, (nm, ty) in assigned.items():
+            v = st.vars.get(rid)
+            if isinstance(v, IntV) and inc is not None and \
+                    self.is_decrement_of(inc, rid):
+                body_assigned = {}
+                self.assigned_in(body, body_assigned)
+                if rid not in body_assigned:
+                    highs[rid] = v.t
         # the unit counter of the loop, if any: c++ / c += 1 in the increment
         counter = None
         for rid in lows:
@@ -2084,6 +2094,8 @@ class Executor:
                             syms.add(nv.t.decl().name())
                         if rid in lows:
                             state.pc.append(nv.t >= lows[rid])
+                        if rid in highs:
+                            state.pc.append(nv.t <= highs[rid])
                     elif isinstance(old, FltV):
                         if rid in keep:
                             # real-valued variable that no path through the
@@ -2576,6 +2588,25 @@ class Executor:
                 del self.orphans[saved[0]:]
             if hasattr(self, 'abandoned'):
                 del self.abandoned[saved[1]:]
+
+    def is_decrement_of(self, inc, rid):
+        n = inc
+        while n.get('kind') in ('ParenExpr',):
+            n = n['inner'][0]
+        if n.get('kind') == 'BinaryOperator' and n.get('opcode') == ',':
+            return any(self.is_decrement_of(c, rid) for c in n['inner'])
+        if n.get('kind') == 'UnaryOperator' and n.get('opcode') == '--':
+            t = n['inner'][0]
+            return t.get('kind') == 'DeclRefExpr' and t.get('refid') == rid
+        if n.get('kind') == 'CompoundAssignOperator' and n.get(
+                'opcode') == '-=':
+            t, v = n['inner']
+            if t.get('kind') == 'DeclRefExpr' and t.get('refid') == rid:
+                while v.get('kind') in ('ImplicitCastExpr', 'ParenExpr'):
+                    v = v['inner'][0]
+                return v.get('kind') == 'IntegerLiteral' and int(
+                    v['value']) > 0
+        return False
 
     def is_increment_of(self, inc, rid, unit=False):
         n = inc
